@@ -273,8 +273,8 @@ class Schema(dict, metaclass=LogicalMeta):
         self.__options__ = context.options  # set options
         for key, field in self.__parser__.property_fields.items():
             self.__coerce_property__(field, context=context)
+        context.raise_error()  # raise error if there is any (before the user's hook: it only sees data that parsed)
         self.__validate__()
-        context.raise_error()  # raise error if there is any
 
     def __contains__(self, item: str):
         field = self.__parser__.get_field(item)
